@@ -153,8 +153,8 @@ def nontrivial_number(x):
 def plan(tier):
     specs = [{'kind': 'boundary'}, {'kind': 'nearmiss'}]
     k = 6 if tier == 'quick' else 16
-    specs += [{'kind': 'numbers', 'n': 2500 if tier == 'quick' else 150000, 'k': i} for i in range(k)]
-    specs += [{'kind': 'strings', 'n': 1500 if tier == 'quick' else 60000, 'k': i} for i in range(4 if tier == 'quick' else 16)]
+    specs += [{'kind': 'numbers', 'n': 8000 if tier == 'quick' else 150000, 'k': i} for i in range(k)]
+    specs += [{'kind': 'strings', 'n': 5000 if tier == 'quick' else 60000, 'k': i} for i in range(4 if tier == 'quick' else 16)]
     return specs
 
 
